@@ -344,6 +344,13 @@ def gen_model(rng, p: Params | None = None) -> ir.Model:
     model = ir.Model(graph, ir_version=p["ir_version"], functions=functions, producer_name="verif")
     if p["metadata"]:
         model.metadata_props["mk"] = "mv"
+        model.producer_version = "1.2.3"
+        model.model_version = 3 + rng.randrange(3)
+        model.doc_string = "model doc"
+        model.domain = "verif.models"
+        for f in functions:
+            f.doc_string = "function doc"
+            f.metadata_props["fk"] = "fv"
         style = rng.randrange(4)  # which kinds of metadata are present varies: graph level, node level, doc strings only
         if style != 1:
             graph.metadata_props["gk"] = "gv"
